@@ -27,3 +27,5 @@ package nextstrain
 //@   call (*tree.Tree).ConnectNodes [the_node_hangs_under_its_parent_s_node] a0 == t && a1 == parent && a2 == newNode && parent != nil && fresh(newNode)
 //@   call (*tree.Edge).SetLength [branch_length_is_the_divergence_gained_since_the_parent] a0 == e && a1 == c.Attributes.Divergence - prevdiv
 //@   call io/nextstrain.cladeToTree [children_are_converted_under_the_new_node_from_this_node_s_divergence] a1 == t && a2 == newNode && a3 == nedges && a4 == nnodes && a5 == c.Attributes.Divergence
+//@   loop 1
+//@     complete [all_iterations_no_early_exit]
